@@ -305,7 +305,7 @@ ExecOp(m, f, o) ==   \* f: top frame with ptr already advanced to o
                   r == Peek(f, 2).v
                   f2 == Drop(f, 2)
               IN IF TN(l) # TN(r) /\ ~(TN(l) = "NULL" \/ TN(r) = "NULL") THEN Fail(SetTop(m, f2), p)
-                 ELSE IF l.t \in {"func", "module"} \/ r.t \in {"func", "module"} THEN Unmod(m)
+                 ELSE IF HasFn(l) \/ HasFn(r) THEN Unmod(m)
                  ELSE next(Push(f2, BoolV(ValEq(m, l, r)), p))
     [] o.op \in {"Gt", "Lt", "GtEq", "LtEq"} ->
          IF Depth(f) < 2 THEN under
@@ -371,6 +371,7 @@ ExecOp(m, f, o) ==   \* f: top frame with ptr already advanced to o
                         IF r.v.t # "str" THEN Fail(SetTop(m, f2), r.p)
                         ELSE IF HasField(l.v.fs, r.v.s) THEN yes ELSE no
                    [] l.v.t = "list" ->
+                        IF HasFn(l.v) \/ HasFn(r.v) THEN Unmod(m) ELSE
                         IF \E j \in 1..Len(l.v.es) : l.v.es[j].t = r.v.t /\ ValEq(m, l.v.es[j], r.v) THEN yes ELSE no
                    [] l.v.t = "str" ->
                         IF r.v.t = "str" /\ IsSubstr(r.v.s, l.v.s) THEN yes ELSE no
